@@ -390,6 +390,7 @@ type c08Outcome struct {
 	ra, la   net.Addr
 	payload  []byte
 	err      string
+	conn     net.Conn
 }
 
 func c08One(ln *proxyproto.Listener, fl *chanListener, segs [][]byte) (c08Outcome, *sconn) {
@@ -415,8 +416,15 @@ func c08One(ln *proxyproto.Listener, fl *chanListener, segs [][]byte) (c08Outcom
 	o.accepted = o.err == ""
 	o.payload = got
 	o.ra, o.la = conn.RemoteAddr(), conn.LocalAddr()
-	conn.Close()
+	o.conn = conn
 	return o, sc
+}
+
+// c08Held: connections kept open while later connections have their headers read; every caller of a connection sees the
+// one outcome of its own header for as long as it is open (ProxyProtoConn.tla: callers that come later take the fast path).
+type c08Held struct {
+	conn         net.Conn
+	ra, la, what string
 }
 
 func isNilAddr(a net.Addr) bool {
@@ -437,6 +445,7 @@ func c08Run(e *env) {
 	fl := newChanListener()
 	ln := &proxyproto.Listener{Listener: fl, ReadHeaderTimeout: 5 * time.Second}
 	idx := 0
+	var held []c08Held
 	e.eachCase(func(raw json.RawMessage) {
 		var c c08Case
 		if err := json.Unmarshal(raw, &c); err != nil {
@@ -470,6 +479,21 @@ func c08Run(e *env) {
 		for _, cuts := range cutsFor(len(data), len(b.hdr), r, full) {
 			ncuts++
 			o, sc := c08One(ln, fl, split(data, cuts))
+			// the connections accepted before still report what they reported then
+			for _, h := range held {
+				if ra, la := fmt.Sprint(h.conn.RemoteAddr()), fmt.Sprint(h.conn.LocalAddr()); ra != h.ra || la != h.la {
+					fail(fmt.Sprintf("an earlier connection (%s) reported %s / %s when its header was read and reports %s / %s after later connections were accepted", h.what, h.ra, h.la, ra, la), cuts, o)
+				}
+			}
+			if o.accepted && !isNilAddr(o.ra) && !isNilAddr(o.la) {
+				held = append(held, c08Held{o.conn, fmt.Sprint(o.ra), fmt.Sprint(o.la), fmt.Sprintf("%+v", c.D)})
+				if len(held) > 6 {
+					held[0].conn.Close()
+					held = held[1:]
+				}
+			} else {
+				o.conn.Close()
+			}
 			exp := c.Expect
 			if exp == "either" {
 				if !o.accepted {
